@@ -9,7 +9,7 @@ MIN2 = {"hma", "linreg", "stdev", "medianabsdev"}
 QUICK_N = list(range(1, 17)) + [31, 32, 63, 64, 127, 128, 253, 254]
 
 
-def job(m, n, t, tier="q", core=True, cost=None, timeout=900):
+def job(m, n, t, tier="q", core=True, cost=None, timeout=None):
     what = "%s length %d, %d steps: symbolic construction value and inputs over the reals; next() and peek() equal the documented formula evaluated from scratch on the explicit history at every step" % (NAMES[m], n, t)
     return X("c02_" + m, {"n": n, "t": t}, what, tier=tier, core=core, cost=cost or (1 + n * n / 4000.0), timeout=timeout,
              encodes=["src/methods/*.rs: %s::{new,next,peek}" % NAMES[m].split()[0], "src/core/window.rs: Window::{new,push,...}"])
